@@ -312,6 +312,7 @@ func FuzzAssemblerLine(f *testing.F) {
 		f.Add([]byte(s))
 	}
 	f.Fuzz(func(t *testing.T, data []byte) {
+		pbt.FuzzTrace(data)
 		if !utf8.Valid(data) {
 			return
 		}
